@@ -284,6 +284,48 @@ func (s *msmSpec) expected() string {
 	return sb.String()
 }
 
+// encOp is the op that asks the Lean specification encoder for the same message.
+func (s *msmSpec) encOp() string {
+	var sm, gm, cm uint64
+	for _, id := range s.sats {
+		sm |= 1 << (64 - id)
+	}
+	for _, id := range s.sigs {
+		gm |= 1 << (32 - id)
+	}
+	for _, r := range s.cells {
+		for _, b := range r {
+			cm = cm<<1 | uint64(b2i(b))
+		}
+	}
+	k := "4"
+	if s.seven {
+		k = "7"
+	}
+	cols := func(vals [][]int64, ncol int) string {
+		if len(vals) == 0 {
+			// columns exist but are empty
+			var parts []string
+			for c := 0; c < ncol; c++ {
+				parts = append(parts, "-")
+			}
+			return strings.Join(parts, ";")
+		}
+		var parts []string
+		for c := 0; c < ncol; c++ {
+			var vs []string
+			for _, row := range vals {
+				vs = append(vs, fmt.Sprint(row[c]))
+			}
+			parts = append(parts, strings.Join(vs, ","))
+		}
+		return strings.Join(parts, ";")
+	}
+	sw, _, gw, _ := s.widths()
+	return fmt.Sprintf("msmenc %s %d %d,%d,%d,%d,%d,%d,%d,%d,%d,%d,%d,%d %d %s %s", k, s.pad, s.typ, s.station, s.ts, b2i(s.multiple),
+		s.iods, s.stt, s.clk, s.ext, b2i(s.smooth), s.interval, sm, gm, cm, cols(s.satVals, len(sw)), cols(s.sigVals, len(gw)))
+}
+
 func pickIDs(r *rand.Rand, max, n int) []uint {
 	perm := r.Perm(max)[:n]
 	present := make([]bool, max+1)
@@ -450,6 +492,9 @@ func genC04(c *Ctx, emit func(class, op string)) {
 			s.pad = room
 		}
 		emit("wellformed-"+shape, s.op(""))
+		if i%3 == 0 {
+			emit("spec-encoder", s.encOp()+" go="+hx(s.encode()))
+		}
 	}
 	// the same message with every padding 0..30: the result must not depend on it
 	for i := 0; i < c.N(6, 60); i++ {
@@ -507,6 +552,10 @@ func oracleC04(op string, o *Obs) string {
 var _ = bits.Len
 
 func init() {
+	opTable["msmenc"] = func(t []string) *Obs {
+		// the Go encoder's payload travels in the op (go=…); the model must produce the same bytes
+		return &Obs{Line: strings.TrimPrefix(t[len(t)-1], "go=")}
+	}
 	opTable["msm4"] = func(t []string) *Obs {
 		m, err := msm4.GetMessage(unhx(t[1]), slog.LevelDebug)
 		if err != nil {
